@@ -448,7 +448,8 @@ export class SchemaPrintingContext {
   }
 
   getRef(name: string): string {
-    return this.refPathTemplate.replace("{name}", name);
+    // a replacement STRING gives `$$`, `$&`.. a special meaning, and `$` is legal in type names
+    return this.refPathTemplate.replace("{name}", () => name);
   }
 
   hasDefinition(name: string): boolean {
